@@ -5,6 +5,8 @@ package dbSync
 //
 //vf:job C07 quick VF_C07_SyncRDB m=1..2 par=1..2 cfg=0..3
 //vf:job C07 quick VF_C07_SyncRDB m=3 par=1 cfg=0..3
+//vf:job C07 quick VF_C07_SyncRDB m=2 par=1 cfg=4..5
+//vf:job C07 thorough VF_C07_SyncRDB m=2 par=2 cfg=4..5
 //vf:job C07 thorough VF_C07_SyncRDB m=3 par=2 cfg=0..2
 //vf:job C07 thorough VF_C07_SyncRDB m=2 par=3 cfg=0..1
 //vf:job C06 quick VF_C07_SyncRDB m=2 par=1 cfg=0..5
